@@ -127,6 +127,16 @@ func errorDiscipline(c *Check, r *Repo, f *ssa.Function, noret map[*ssa.Function
 			if ok {
 				c.OK(rule, construct, pos, wit)
 			} else {
+				// in main itself the exit may be organised in a way the path rule cannot follow (a status
+				// variable and one deferred os.Exit): for an error that comes out of main's own pipeline
+				// function every failure the pipeline can have is injected by R-cli-semantics, which
+				// observes the exit status of the evaluated main
+				if isMain && call.Common().StaticCallee() != nil && call.Common().StaticCallee().Pkg == f.Pkg {
+					if res := cliVerdict(r); res.und == "" && len(res.bad) == 0 && res.n >= 60 {
+						c.OK(rule, construct, pos, "the path from the error to the exit is not in a form this rule follows ("+clip(det, 140)+"); decided by R-cli-semantics: every injected failure of the pipeline ends in a non-zero exit status")
+						continue
+					}
+				}
 				o := c.Bad(rule, construct, pos, det)
 				o.Replay = det
 			}
@@ -281,6 +291,16 @@ func droppedIdiom(call ssa.CallInstruction, f *ssa.Function, noret map[*ssa.Func
 					if g, ok := u.X.(*ssa.Global); ok && g.Pkg.Pkg.Path() == "os" && (g.Name() == "Stderr") {
 						return "diagnostic print to os.Stderr"
 					}
+				}
+			}
+		}
+	case "(*flag.FlagSet).Parse":
+		// a FlagSet created with flag.ExitOnError ends the process itself on a bad command line:
+		// its Parse only ever returns nil
+		if len(args) > 0 {
+			if mk, ok := resolveLocal(args[0]).(*ssa.Call); ok && calleeName(mk) == "flag.NewFlagSet" && len(mk.Call.Args) == 2 {
+				if k, ok := mk.Call.Args[1].(*ssa.Const); ok && k.Value != nil && k.Value.String() == "1" {
+					return "Parse of a flag set created with flag.ExitOnError (it exits with status 2 itself; the returned error is always nil)"
 				}
 			}
 		}
